@@ -247,7 +247,7 @@ PROPS["C09"] = {
                         "scalars: every Xyz/XYZ pair of Real64 and Real32 on fully symbolic jets (any float incl. NaN/Inf/zeros), N<=2, order<=2, "
                         "constant and mismatching-order operand structures, symbolic prior receiver content",
                "thorough": "all eight operand structures"},
-    "outside": "",
+    "outside": "sparse matrices (their typed methods mirror the generic ones line by line from the same template; not run), integer and Float32 containers in the quick tier, vectors longer than 3 and matrices larger than 2x2, the reductions built on special.* beyond agreement of the two code paths on the same uninterpreted heads",
     "assumptions": ["libm functions are uninterpreted (same head and argument give the same value), special.* by name"],
 }
 
@@ -317,7 +317,7 @@ PROPS["C08"] = {
                         "MdotM/MaddM/MmulM with receiver and operands being views (Slice, T) of one 3x3 dense parent; MdotV/VdotM alias rejection; scalars: every operation of Real64/Real32 with the receiver aliasing the first, the second or both operands, generic and CONCRETE methods, "
                         "fully symbolic jets N<=2, order<=2 incl. constant operands and mismatching orders; temporaries with arbitrary content",
                "thorough": "all eight operand structures"},
-    "outside": "",
+    "outside": "aliasing through views of sparse matrices, three-way aliasing beyond receiver = both operands, aliasing of temporaries with operands (documented as forbidden), vectors longer than 3 and matrices larger than 2x2 / views of parents larger than 3x3",
     "assumptions": ["libm functions are uninterpreted (same head and argument give the same value), special.* by name"],
 }
 
